@@ -393,10 +393,10 @@ theorem update_rebuild_refines {c : Cfg} (hc : c.wf = true) {P : Obj → Prop} (
 /-- One API call — `Rebuild` included — refines one step of the abstract map. -/
 theorem step_refines_all {c : Cfg} (hc : c.wf = true) {P : Obj → Prop} (hPw : ∀ o, P o → c.wfObj o = true)
     (hk : KeysOK c P) {kv : KV} {m : Abs} (hi : Inv c P kv m) (hs : Sorted kv)
-    (op : Op) (hP : ∀ o, op.obj? = some o → P o) (hu : UniqueOK c (specApply m op).1) :
-    ∃ m', specStep m op (step c kv op).2 = some m' ∧ Inv c P (step c kv op).1 m' := by
+    (op : Op) (hP : ∀ o, op.obj? = some o → P o) :
+    ∃ m', specStep c m op (step c kv op).2 = some m' ∧ Inv c P (step c kv op).1 m' := by
   cases hr : op.isRebuild with
-  | false => exact step_refines hk hi op hr hP hu
+  | false => exact step_refines hk hi op hr hP
   | true =>
     cases op with
     | rebuild f =>
@@ -408,7 +408,7 @@ theorem step_refines_all {c : Cfg} (hc : c.wf = true) {P : Obj → Prop} (hPw : 
     | _ => simp [Op.isRebuild] at hr
 
 theorem history_refines_all {c : Cfg} (hc : c.wf = true) {P : Obj → Prop} (hPw : ∀ o, P o → c.wfObj o = true)
-    (hk : KeysOK c P) (hid : c.uniqueOnIdOnly = true) :
+    (hk : KeysOK c P) :
     ∀ (ops : List Op) (kv : KV) (m : Abs), Inv c P kv m → Sorted kv →
       (∀ op ∈ ops, ∀ o, op.obj? = some o → P o) →
       ∃ m', absRun c ops kv m = some m' ∧ Inv c P (runFrom c kv ops) m' := by
@@ -418,7 +418,6 @@ theorem history_refines_all {c : Cfg} (hc : c.wf = true) {P : Obj → Prop} (hPw
   | cons op rest ih =>
     intro kv m hi hs hops
     obtain ⟨m1, hsp, hi1⟩ := step_refines_all hc hPw hk hi hs op (hops op List.mem_cons_self)
-      (uniqueOK_of_idOnly hid _)
     obtain ⟨m', hr, hi'⟩ := ih (step c kv op).1 m1 hi1 (step_sorted c kv op hs)
       (fun o ho => hops o (List.mem_cons_of_mem _ ho))
     refine ⟨m', ?_, ?_⟩
